@@ -112,7 +112,43 @@ func countKinds(o *vh.Out, n *Node) {
 	}
 }
 
+// failing reports whether the request installs a failing return procedure.
+func failing(procs string) bool {
+	for _, it := range strings.Split(procs, ",") {
+		if kv := strings.SplitN(it, "=", 2); len(kv) == 2 && FailingProc(kv[1]) {
+			return true
+		}
+	}
+	return false
+}
+
+// oneFailing: grammars with return procedures that fail at run time (runtime errors are not
+// in the model): harness-only termination oracle, no differential case.
+func (rn *runner) oneFailing(req Req) {
+	o := rn.o
+	resp := rn.pool.Do(req)
+	o.Count("failproc_cases")
+	line := "tplm-failproc\t" + vh.HexS(req.Text) + "\t" + vh.HexS(req.Input) + "\t" + req.Procs
+	if resp.Hang {
+		o.Oracle("hang", line, "with failing return procedures ("+req.Procs+") Match/Parse/ParseExpr did not return within "+rn.pool.Timeout.String()+"; grammar: "+strings.ReplaceAll(req.Text, "\n", "; ")+" input: "+req.Input)
+		o.Count("impl_hang")
+	}
+	if resp.Crash != "" {
+		o.Oracle("stack-overflow", line, resp.Crash+" with failing return procedures ("+req.Procs+"); grammar: "+strings.ReplaceAll(req.Text, "\n", "; ")+" input: "+req.Input)
+		o.Count("impl_crash")
+	}
+	if strings.Contains(resp.Impl, "| M ok") {
+		o.Count("failproc_match_ok")
+	} else if strings.Contains(resp.Impl, "| M fail") {
+		o.Count("failproc_match_err")
+	}
+}
+
 func (rn *runner) one(req Req) (recursive bool) {
+	if failing(req.Procs) {
+		rn.oneFailing(req)
+		return false
+	}
 	o := rn.o
 	resp := rn.pool.Do(req)
 	if resp.Skip != "" && resp.CaseLine == "" {
@@ -287,6 +323,12 @@ func Main(kind string) {
 		// case lines reach us tab-separated (cases.txt) or blank-separated (oracle.txt): the
 		// fields we need are the last ones and contain no blanks
 		fs := strings.Fields(f.Replay)
+		if len(fs) == 4 && fs[0] == "tplm-failproc" {
+			text, _ := vh.UnHex(fs[1])
+			input, _ := vh.UnHex(fs[2])
+			rn.oneFailing(Req{Text: string(text), Input: string(input), Procs: fs[3]})
+			return
+		}
 		if len(fs) < 8 {
 			fmt.Fprintln(os.Stderr, "replay: case line has no source fields")
 			os.Exit(2)
@@ -306,14 +348,31 @@ func Main(kind string) {
 	corpus := append(append([]corpusItem{}, corpusC29...), repoCorpus()...)
 	perGrammar := 3
 	maxWords := 16
+	failShare := 8
 	if kind == "c28" {
 		conf = GenConf{MaxRules: 4, MaxDepth: 3, Nullable: 60, LeftRef: 35, Procs: 5, SpaceAdj: 40}
 		corpus = nil
 		perGrammar = 2
 		maxWords = 10
+		failShare = 30
 		for _, it := range corpusC28 {
 			for _, in := range it.inputs {
 				rn.one(Req{G: it.g, Text: it.g.Text(), Input: in, Procs: "-"})
+			}
+		}
+		// nullable repetition bodies whose return procedure fails on the empty match
+		fp := []*Grammar{
+			gr(ru("doc", seq(star(ref("r1")), kw("b"))), ru("r1", opt(kw("a")))),
+			gr(ru("doc", seq(plus(ref("r1")), kw("b"))), ru("r1", opt(kw("a")))),
+			gr(ru("doc", seq(star(ref("r1")), kw("b"))), ru("r1", star(kw("a")))),
+			gr(ru("doc", nd("list", "", ref("r1"), ref("r1"))), ru("r1", opt(kw("a")))),
+			gr(ru("doc", star(seq(ref("r1"), ref("r1")))), ru("r1", nd("true", ""))),
+		}
+		for _, g := range fp {
+			for _, spec := range []string{"xs", "xd", "xe", "xS"} {
+				for _, in := range []string{"b", "a b", "a a b", ""} {
+					rn.oneFailing(Req{G: g, Text: g.Text(), Input: in, Procs: vh.HexS("r1") + "=" + spec})
+				}
 			}
 		}
 	}
@@ -337,9 +396,23 @@ func Main(kind string) {
 			countKinds(o, ru.Body)
 		}
 		text := g.Text()
+		rejected := false
 		for j := 0; j < perGrammar; j++ {
 			if rn.one(Req{G: g, Text: text, Input: GenInput(rr, g, maxWords), Procs: g.Procs()}) {
+				rejected = true
 				break // rejected at compile time: one case per grammar is enough
+			}
+		}
+		if !rejected && rr.Chance(failShare) {
+			// the same grammar with failing return procedures on a random share of its rules
+			var ps []string
+			for _, ru := range g.Rules {
+				if rr.Chance(70) {
+					ps = append(ps, vh.HexS(ru.Name)+"="+rr.Pick([]string{"xs", "xs", "xd", "xe", "xS"}))
+				}
+			}
+			if len(ps) > 0 {
+				rn.oneFailing(Req{G: g, Text: text, Input: GenInput(rr, g, maxWords), Procs: strings.Join(ps, ",")})
 			}
 		}
 		if pool.Hangs+pool.Crashes >= 6 {
